@@ -50,7 +50,7 @@ CHECKS = {
   technique="Lean 4 proof (list algebra on the action queue) + probe-based correspondence"),
  "C06": dict(
   category="proof",
-  text="Lean 4 theorems: play_clock (a play advances the clock by exactly the elapse time of its own action; relayed callbacks never do), per_command (ELAPSE t: +t; CAST: + first positive delay of its use, 0 if none; RESOLVE: + pending delay of the named skill; USE/KEYDOWNSTOP/debug: +0), clock_is_sum (every recorded clock is the previous one plus the elapse time of the action; the shown clock is the sum of all elapse times), clock_monotone, firstDelay_nonneg — for every router satisfying hRouter (only the timer writes the clock), which is observed on every router call of real runs of all jobs, together with the per-command deltas and the times carried by 'elapsed' notifications.",
+  text="Lean 4 theorems: play_clock (a play advances the clock by exactly the elapse time of its own action; relayed callbacks never do), per_command (ELAPSE t: +t; CAST: + first positive delay of its use, 0 if none; RESOLVE: + pending delay of the named skill; USE/KEYDOWNSTOP/debug: +0), clock_is_sum (every recorded clock is the previous one plus the elapse time of the action; the shown clock is the sum of all elapse times), clock_monotone, firstDelay_nonneg — for every router satisfying hRouter (only the timer writes the clock); hRouter is itself DERIVED (C06_Router) for the modelled router from the dispatcher frame theorem of C08 plus the static fact that no component is bound to global.time, and is observed on every router call of real runs of all jobs; per component class X_elapsed_carries_time (part files): exactly one 'elapsed' event with exactly the elapse time; together with the per-command deltas and the times carried by 'elapsed' notifications.",
   design_ref="DESIGN.md §4 C06",
   note="Trusted: Lean kernel + standard axioms; hand model tied by C01/C03 replays + router-call observation; hRouter hypothesis (observed, plus static check of bound addresses); on-grid float addition exact.",
   technique="Lean 4 proof (invariant over commands) + router-call observation"),
@@ -62,7 +62,7 @@ CHECKS = {
   technique="Lean 4 proof over generated tables (decide +kernel lifted) + exhaustive differential correspondence"),
  "C07": dict(
   category="proof",
-  text="Lean 4 theorems for the dispatcher of component/base.py with an ARBITRARY reducer (tagging never creates or hides a rejection; nothing is appended to an answer containing a rejection; a reducer that rejects alone and returns its input state makes the dispatcher report that rejection alone and leave every store lookup unchanged) and, per modelled component class, that its reducers reject alone with the state unchanged. Every dispatcher of every job is additionally observed through a proxy (whole-store snapshot before/after, returned events) on rejection-biased plans, on a fork sweep dispatching every mapped reducer (player and listened) on restored checkpoints, and on synthetic positive cooldowns; unmodelled classes are covered by this exploration only.",
+  text="Lean 4 theorems for the dispatcher of component/base.py with an ARBITRARY reducer (tagging never creates or hides a rejection; nothing is appended to an answer containing a rejection; a reducer that rejects alone and returns its input state makes the dispatcher report that rejection alone and leave every store lookup unchanged) and, per component class — ALL 62 classes the eight shipped jobs instantiate are modelled (Model/Component*.lean), part files C07_Common/Mage/Mech/Wind — that every reducer that can reject answers a rejection alone with the state it was given (incl. bound foreign entities), and that the other reducers (elapse, listened triggers, ignore_rejected wrappers) never reject. Every dispatcher of every job is additionally observed through a proxy (whole-store snapshot before/after, returned events) on rejection-biased plans, on a fork sweep dispatching every mapped reducer (player and listened) on restored checkpoints, and on synthetic positive cooldowns; the component models are tied to the code by replaying harvested real reducer calls through the Lean driver with exact comparison.",
   design_ref="DESIGN.md §4 C07",
   note="Trusted: Lean kernel + standard axioms; hand models of the dispatcher and of the component classes tied by differential correspondence; known finding F8d (StackableBuffSkillComponent, latent: shipped cooldown 0).",
   technique="Lean 4 proof (dispatcher for arbitrary reducers + per-class reducer lemmas) + dispatcher-proxy exploration"),
@@ -110,9 +110,9 @@ CHECKS = {
   technique="Lean 4 proof over formulas regenerated from the YAML + level-grid exploration of builds"),
  "C10": dict(
   category="proof",
-  text="Lean 4 theorems per modelled component class (BuffSkill, AttackSkill, DOTEmittingAttackSkill, PeriodicDamageConfiguratedAttackSkill, ProgrammedPeriodic, TriggableBuff, KeydownSkill — about three quarters of all installed component instances): the validity view never reports a negative remaining time, and whenever it reports the skill usable, `use` on that very state is not rejected, for EVERY state and parameter block (for key-down skills this needs the repaired validity; the unrepaired one is refuted by a witness). Views are total functions in the model. The component models are tied to the code by replaying thousands of harvested real reducer/view calls through the Lean driver (exact equality). For ALL classes (modelled or not) every view is evaluated after every command of seeded plans on all jobs and every skill listed valid is USEd on a restored copy of the checkpoint.",
+  text="Lean 4 theorems per component class — all 62 classes the eight shipped jobs instantiate are modelled (Model/Component*.lean; part files C10_Common/Mage/Mech/Wind) — plus the aggregated views (C10_Views: the total buff is the generated Stat.sum, i.e. the monoid sum, of the switched-on component buffs): the validity view never reports a negative remaining time, and whenever it reports the skill usable, `use` on that very state is not rejected, for EVERY state and parameter block (for key-down skills this needs the repaired validity; the unrepaired one is refuted by a witness). Views are total functions in the model. Where `use` can raise (Periodic.set_time_left) an explicit X_use_defined theorem states the parameter condition. The component models are tied to the code by replaying thousands of harvested real reducer/view calls through the Lean driver (exact equality). For ALL classes (modelled or not) every view is evaluated after every command of seeded plans on all jobs and every skill listed valid is USEd on a restored copy of the checkpoint.",
   design_ref="DESIGN.md §4 C10",
-  note="Trusted: Lean kernel + standard axioms; hand component models tied by harvested-call replay; classes not modelled are covered by exploration only (listed in the evidence); cooldown/buff-duration results are parameters (proved in C12).",
+  note="Trusted: Lean kernel + standard axioms; hand component models tied by harvested-call replay; known finding F20 (engine-level: pending callbacks consume a shared stack before the proposed action; soulmaster); cooldown/buff-duration results are parameters (proved in C12).",
   technique="Lean 4 proof per component class + harvested-call replay + forked-USE exploration"),
  "C02": dict(
   category="other",
@@ -122,7 +122,7 @@ CHECKS = {
   technique="Lean 4 proof of the sharing protocol + fresh-process differential (observation)"),
  "C09": dict(
   category="proof",
-  text="Lean 4 theorems at two levels. Entities (Model/Entity.lean, every entity class incl. the mob's DOT tracker and job-specific timers, time as Int on the 2^-10 ms grid): elapse b (elapse a e) is equal or equivalent (up to fields that are dead once a timer expired, with congruence of every method and view) to elapse (a+b) e, tick counts add, for all a,b >= 0, plus multi-way splits — cooldown, lasting, lastingStack, consumable, periodic, keydown, dot, programmedPeriodic, dynamicIntervalPeriodic, currentField; orderSword only partially, with the negation witness (known finding F10). Components (part files C09_Common/Mech/Wind/...): X_chunk_independent for the modelled component classes (same damage ticks as a multiset, equivalent states, equal views), with preserved invariants. Every entity method is compared with the real pydantic entity; and for ALL components of all jobs the property is evaluated directly on the component's own dispatcher on two restored copies of harvested checkpoints with boundary and random splits.",
+  text="Lean 4 theorems at two levels. Entities (Model/Entity.lean, every entity class incl. the mob's DOT tracker and job-specific timers, time as Int on the 2^-10 ms grid): elapse b (elapse a e) is equal or equivalent (up to fields that are dead once a timer expired, with congruence of every method and view) to elapse (a+b) e, tick counts add, for all a,b >= 0, plus multi-way splits — cooldown, lasting, lastingStack, consumable, periodic, keydown, dot, programmedPeriodic, dynamicIntervalPeriodic, currentField; orderSword only partially, with the negation witness (known finding F10). Components (part files C09_Common/Mage/Mech/Wind): X_chunk_independent for the component classes of all eight jobs (same damage ticks as a multiset, equivalent states, equal views), with preserved invariants. Every entity method is compared with the real pydantic entity; and for ALL components of all jobs the property is evaluated directly on the component's own dispatcher on two restored copies of harvested checkpoints with boundary and random splits.",
   design_ref="DESIGN.md §4 C09",
   note="Trusted: Lean kernel + standard axioms; hand entity/component models tied by exact correspondence on the time grid; float behaviour off the grid is not modelled; known finding F10 (AdeleOrderComponent).",
   technique="Lean 4 proof (loop-splitting lemmas per timer entity, lifted to components) + two-execution exploration on real dispatchers"),
